@@ -34,6 +34,9 @@ type C14Case struct {
 	MaxConns int       `json:"max_conns"`
 	Seed     uint32    `json:"xxhash_seed"`
 	FailPair [2]int    `json:"fail_pair"` // handler retry: fault points of attempts 1 and 2 (taken modulo N)
+	// Large > 0: that many further plain events join the batch (a batch as big as
+	// a busy relay's); only a sample of its fault points is executed
+	Large int `json:"large,omitempty"`
 }
 
 type c14Engine struct{}
@@ -72,6 +75,10 @@ func (c14Engine) Gen(t *rapid.T, tier string) any {
 		c.Batch = append(c.Batch, rapid.IntRange(0, n-1).Draw(t, "bev"))
 	}
 	c.FailPair = [2]int{rapid.IntRange(0, 40).Draw(t, "f1"), rapid.IntRange(0, 40).Draw(t, "f2")}
+	if rapid.IntRange(0, 11).Draw(t, "large") == 0 {
+		c.Large = rapid.SampledFrom([]int{130, 257, 300, 513}).Draw(t, "largen")
+		c.FailPair = [2]int{rapid.IntRange(0, 4000).Draw(t, "lf1"), rapid.IntRange(0, 4000).Draw(t, "lf2")}
+	}
 	return c
 }
 
@@ -166,6 +173,10 @@ func (c14Engine) Exec(t *testing.T, cc any) *simrt.Result {
 		var batch []*mocrelay.Event
 		for _, i := range c.Batch {
 			batch = append(batch, evs[i])
+		}
+		for i := 0; i < c.Large; i++ {
+			sp := simrt.EvSpec{Author: i % 3, Kind: 1, CreatedAt: int64(1000 + i), Content: fmt.Sprintf("L%d", i), Tags: [][]string{{"t", fmt.Sprintf("l%d", i%7)}}}
+			batch = append(batch, sp.Event())
 		}
 		probes := c14Probes(evs, batch)
 		open := func(dir string) *sqlDB {
@@ -309,7 +320,17 @@ func (c14Engine) Exec(t *testing.T, cc any) *simrt.Result {
 		}
 		st.Probe(fmt.Sprintf("fault_points_%02d", min(N, 30)))
 		// ---- 3. every fault point k: I/O error, cancellation, crash
+		sampled := map[int]bool{}
+		if c.Large > 0 {
+			st.Probe("large_batch")
+			for _, k := range []int{N, N - 1, N * 3 / 4, N/2 + 1, c.FailPair[0]%N + 1, c.FailPair[1]%N + 1} {
+				sampled[max(k, 1)] = true
+			}
+		}
 		for k := 1; k <= N; k++ {
+			if c.Large > 0 && !sampled[k] {
+				continue
+			}
 			// (a) injected I/O error at call k
 			dk := fresh(fmt.Sprintf("err%d", k))
 			if dk == nil {
@@ -406,6 +427,11 @@ func (c14Engine) Exec(t *testing.T, cc any) *simrt.Result {
 				return
 			}
 			os.RemoveAll(snap)
+		}
+		if c.Large > 0 {
+			st.NonTrivial = true
+			st.Completed = true
+			return
 		}
 		// ---- 4. real SQLITE_FULL at three page limits (512-byte pages so that the
 		// batch needs new pages; pre-history replayed on that database)
